@@ -359,6 +359,9 @@ func fixedCases() []input {
 		{Note: "a std import: packages outside the module are part of the universe", Roots: []string{"."}, Procs: 2, Loads: 1, Pkgs: []pkgIn{
 			pk("", "m", []string{"errors", modPath + "/a"}, "type T struct{}"),
 			pk("a", "a", []string{"unicode/utf8"}, "const A = 1")}},
+		{Note: "a dependency used through a replace directive (local checkout): SourceDir / LocateInPackage of its packages", Roots: []string{"./..."}, Procs: 2, Loads: 1,
+			Pkgs: []pkgIn{pk("", "m", []string{depPath, depPath + "/sub"}, "type T struct{}")},
+			Dep:  []pkgIn{pk("", "dep", []string{depPath + "/sub"}, "type D struct{}", "func (D) M() {}"), pk("sub", "sub", nil, "const S = 1", "type U int")}},
 		one("//line directive naming a file in the same directory", nil,
 			pk("", "m", nil, "type T struct{}", "//line renamed.go:10\nfunc Renamed() {}")),
 		one("//line directive naming a file in a foreign directory (known finding)", nil,
